@@ -3,7 +3,7 @@
     translation validated by correspondence K5).  [eql] = elementwise equality of rationals. *)
 From Coq Require Import QArith Qabs List Bool String.
 From Coq Require Import Permutation.
-From IV Require Import QL Dist Ecdf QListFacts GenUtils GenScalars RatLS C16_compose C03_proofs C02_proofs C04_proofs C01_proofs C09_proofs RatLS_proofs C16_sortlike C01_nonparam.
+From IV Require Import QL Dist Ecdf QListFacts GenUtils GenScalars RatLS C16_compose C03_proofs C02_proofs C04_proofs C01_proofs C09_proofs RatLS_proofs C16_sortlike C01_nonparam NP IsimipStep3 IsimipStep3_proofs.
 Import ListNotations.
 Open Scope Q_scope.
 
@@ -79,3 +79,10 @@ Theorem C01_qm_nonparametric_no_residual_bias : forall (P : Type) (D : dist P) t
               Permutation out obs /\ QL.qmean out = QL.qmean obs.
 Proof. exact @qm_nonparam_no_residual_bias. Qed.
 Print Assumptions C01_qm_nonparametric_no_residual_bias.
+
+(** ISIMIP step 3: the removed trend is centred on the mean of the years present — over those years it sums to zero,
+    so detrending does not move the level of the annual means (the slip "anchor the trend at the first year" breaks
+    exactly this) *)
+Theorem C01_isimip_trend_centred : forall sig years x, years <> [] -> QL.qsum (map snd (annual_trend sig years x)) == 0.
+Proof. exact trend_centred. Qed.
+Print Assumptions C01_isimip_trend_centred.
